@@ -101,7 +101,7 @@ TBox ==
               \cup Named(Rec.eqnull = (b = NullBox) /\ Rec.eqinf = (b = InfBox), "X06.EqualityIsFaceEquality")
               \cup BumpViolations(b, Rec.bumpd, TRUE) \cup BumpViolations(b, Rec.bumpf, FALSE)
               \cup Exact(Rec) IN
-     viol' = Bump(viol, V)
+     \E VV \in {V} : viol' = Bump(viol, VV)
   /\ nxt' = [nxt EXCEPT !.box = @ + 1]
   /\ stat' = [stat EXCEPT !.boxes = @ + 1]
   /\ cnt' = cnt + 1
@@ -121,8 +121,9 @@ TBoxRow ==
                           \cup Named(Rec.eq[j] = (a = b), "X06.EqualityIsFaceEquality"),
                     d |-> BoxUnionDrift(a, b, Rec.un[j])
                           \cup (IF Rec.enc[j] = 2 THEN {} ELSE EnclosesDrift(a, b, Rec.enc[j] = 1))]] IN
-     /\ viol' = Bump(viol, UNION {out[j].v : j \in DOMAIN out} \cup Exact(Rec))
-     /\ drift' = Bump(drift, UNION {out[j].d : j \in DOMAIN out})
+     \E o \in {out} :
+     /\ viol' = Bump(viol, UNION {o[j].v : j \in DOMAIN o} \cup Exact(Rec))
+     /\ drift' = Bump(drift, UNION {o[j].d : j \in DOMAIN o})
   /\ nxt' = [nxt EXCEPT !.row = @ + 1]
   /\ stat' = [stat EXCEPT !.boxpairs = @ + Len(BX)]
   /\ cnt' = cnt + 1
@@ -169,11 +170,11 @@ TZone ==
 
 \* one call of calc_intersection / calc_union: violated clauses, named deviation, drift
 CallOutcomeV(op, va, vb, r) ==
-  LET V == ZoneOpViolationsV(op, va, vb, View(r, UU))
-      D == IF V = {} THEN {} ELSE ZoneOpDeviation(op, va.z, vb.z, r, V) IN
-  [v |-> IF D = {} THEN V ELSE {},
-   d |-> D,
-   f |-> IF V = {} /\ r # CodedOp(op, va.z, vb.z, "coded") THEN {"X06.AsTranscribed"} ELSE {}]
+  One({One({[v |-> IF D = {} THEN V ELSE {},
+             d |-> D,
+             f |-> IF V = {} /\ r # CodedOp(op, va.z, vb.z, "coded") THEN {"X06.AsTranscribed"} ELSE {}]
+            : D \in {IF V = {} THEN {} ELSE ZoneOpDeviation(op, va.z, vb.z, r, V)}})
+       : V \in {ZoneOpViolationsV(op, va, vb, View(r, UU))}})
 CallOutcome(op, a, b, r) == CallOutcomeV(op, View(a, UU), View(b, UU), r)
 
 CountDev(outs, name) == Cardinality({i \in DOMAIN outs : name \in outs[i].d})
@@ -181,9 +182,8 @@ CountDev(outs, name) == Cardinality({i \in DOMAIN outs : name \in outs[i].d})
 TZoneRow ==
   /\ pc = "run" /\ mode = "pairs" /\ Rec.e = "ZoneRow" /\ Rec.k = nxt.zrow
   /\ Len(Rec.and) = Len(ZN) /\ Len(Rec.or) = Len(ZN)
-  /\ LET a == ZV[Rec.k]
-         oa == [j \in DOMAIN ZN |-> CallOutcomeV("and", a, ZV[j], Rec.and[j])]
-         oo == [j \in DOMAIN ZN |-> CallOutcomeV("or", a, ZV[j], Rec.or[j])] IN
+  /\ \E oa \in {[j \in DOMAIN ZN |-> CallOutcomeV("and", ZV[Rec.k], ZV[j], Rec.and[j])]} :
+     \E oo \in {[j \in DOMAIN ZN |-> CallOutcomeV("or", ZV[Rec.k], ZV[j], Rec.or[j])]} :
      /\ viol' = Bump(viol, UNION {oa[j].v \cup oo[j].v : j \in DOMAIN ZN} \cup Exact(Rec))
      /\ dev' = Bump(dev, UNION {oa[j].d \cup oo[j].d : j \in DOMAIN ZN})
      /\ drift' = Bump(drift, UNION {oa[j].f \cup oo[j].f : j \in DOMAIN ZN})
@@ -196,9 +196,9 @@ TZoneRow ==
 
 TPair ==
   /\ pc = "run" /\ mode = "rand" /\ Rec.e = "Pair" /\ Rec.k = nxt.other
-  /\ LET ok == Consistent(Rec.a, UU) /\ Consistent(Rec.b, UU)
-         oa == CallOutcome("and", Rec.a, Rec.b, Rec.and)
-         oo == CallOutcome("or", Rec.a, Rec.b, Rec.or) IN
+  /\ \E ok \in {Consistent(Rec.a, UU) /\ Consistent(Rec.b, UU)} :
+     \E oa \in {CallOutcome("and", Rec.a, Rec.b, Rec.and)} :
+     \E oo \in {CallOutcome("or", Rec.a, Rec.b, Rec.or)} :
      /\ viol' = Bump(viol, (IF ok THEN oa.v \cup oo.v ELSE {"X06.PairInputConsistent"}) \cup Exact(Rec))
      /\ dev' = Bump(dev, IF ok THEN oa.d \cup oo.d ELSE {})
      /\ drift' = Bump(drift, IF ok THEN oa.f \cup oo.f ELSE {})
@@ -223,11 +223,11 @@ ChainStep(acc, i) ==
                    !.broken = @ \/ ~Represents(cur, R2, UU)]
   ELSE LET lf == LV[m.leaf]
            o == IF m.neg THEN Negated(lf.z) ELSE lf.z
-           Ro == IF m.neg THEN UU \ PtSet(lf.reg) ELSE PtSet(lf.reg)
-           out == CallOutcome(m.op, prev, o, cur)
-           R2 == IF m.op = "and" THEN acc.R \cap Ro ELSE acc.R \cup Ro IN
-       [R |-> R2, taint |-> acc.taint \/ out.d # {}, v |-> acc.v \cup out.v, d |-> acc.d \cup out.d,
+           Ro == IF m.neg THEN UU \ PtSet(lf.reg) ELSE PtSet(lf.reg) IN
+       One({[R |-> R2, taint |-> acc.taint \/ out.d # {}, v |-> acc.v \cup out.v, d |-> acc.d \cup out.d,
         f |-> acc.f \cup out.f, broken |-> acc.broken \/ ~Represents(cur, R2, UU), calls |-> acc.calls + 1]
+            : out \in {CallOutcome(m.op, prev, o, cur)},
+              R2 \in {IF m.op = "and" THEN acc.R \cap Ro ELSE acc.R \cup Ro}})
 
 TChain ==
   /\ pc = "run" /\ mode = "chains" /\ Rec.e = "Chain" /\ Rec.k = nxt.other
@@ -237,14 +237,14 @@ TChain ==
          acc0 == [R |-> R0, taint |-> FALSE,
                   v |-> Named(Rec.zs[1] = z0, "X06.FoldStartsFromDocumentedZone"), d |-> {}, f |-> {},
                   broken |-> FALSE, calls |-> 0]
-         acc == FoldLeft(ChainStep, acc0, [i \in DOMAIN Rec.moves |-> i])
-         zl == Rec.zs[Len(Rec.zs)]
-         miss == ~(acc.R \subseteq Pts(Rec.bbox, UU))
-         V == acc.v \cup ExteriorBBoxViolations(zl, Rec.bbox, UU) \cup Exact(Rec)
+         zl == Rec.zs[Len(Rec.zs)] IN
+     \* (a bound variable over a singleton is evaluated once; a LET definition on every use)
+     \E acc \in {FoldLeft(ChainStep, acc0, [i \in DOMAIN Rec.moves |-> i])} :
+     \E miss \in {~(acc.R \subseteq Pts(Rec.bbox, UU))} :
+     /\ viol' = Bump(viol, acc.v \cup ExteriorBBoxViolations(zl, Rec.bbox, UU) \cup Exact(Rec)
               \* the head-line statements; unexplained only when no named deviation precedes
               \cup Named(acc.taint \/ ~acc.broken, "X06.RegionEnclosed")
-              \cup Named(acc.taint \/ ~miss, "X06.BBoxCoversRegion") IN
-     /\ viol' = Bump(viol, V)
+              \cup Named(acc.taint \/ ~miss, "X06.BBoxCoversRegion"))
      /\ dev' = Bump(dev, acc.d)
      /\ drift' = Bump(drift, acc.f)
      /\ stat' = [stat EXCEPT !.chains = @ + 1, !.chaincalls = @ + acc.calls,
@@ -259,31 +259,30 @@ TChain ==
 
 -----------------------------------------------------------------------------
 (* Clip: acc = [I, X (point sets of the boxes), R, taint, v, d, f] *)
-ClipStep(acc, i) ==
-  LET m == Rec.clips[i]
-      st == Rec.steps[i]
-      Io == PtSet(st.i)
-      Xo == PtSet(st.x) IN
+ClipStep2(acc, m, st, Io, Xo) ==
   IF m.sense = "in"
-  THEN LET V == ClipViolations(m.s, acc.I, acc.X, Io, Xo, UU)
-                \cup Named(~st.neg, "X06.ClipKeepsFlag")
-           isdev == V # {} /\ SphereInteriorNotInscribed(m.s, acc.I, Io, V, UU)
-           R2 == acc.R \cap SurfRegion(m.s, UU) IN
-       [I |-> Io, X |-> Xo, R |-> R2, taint |-> acc.taint \/ isdev,
-        v |-> acc.v \cup (IF isdev THEN {} ELSE V),
-        d |-> acc.d \cup (IF isdev THEN {"SphereInteriorNotInscribed"} ELSE {}),
-        f |-> acc.f \cup (IF V = {} THEN ClipDrift(m.s, acc.I, Io, UU) ELSE {}),
-        broken |-> acc.broken \/ ~(Io \subseteq R2 /\ R2 \subseteq Xo)]
-  ELSE LET V == NegClipViolations(m.s, acc.I, acc.X, Io, Xo, UU) \cup Named(~st.neg, "X06.ClipKeepsFlag")
-           R2 == acc.R \cap SurfOutRegion(m.s, UU) IN
-       [acc EXCEPT !.I = Io, !.X = Xo, !.R = R2, !.v = @ \cup V,
-                   !.broken = @ \/ ~(Io \subseteq R2 /\ R2 \subseteq Xo)]
+  THEN One({One({[I |-> Io, X |-> Xo, R |-> R2, taint |-> acc.taint \/ isdev,
+                  v |-> acc.v \cup (IF isdev THEN {} ELSE V),
+                  d |-> acc.d \cup (IF isdev THEN {"SphereInteriorNotInscribed"} ELSE {}),
+                  f |-> acc.f \cup (IF V = {} THEN ClipDrift(m.s, acc.I, Io, UU) ELSE {}),
+                  broken |-> acc.broken \/ ~(Io \subseteq R2 /\ R2 \subseteq Xo)]
+                 : isdev \in {V # {} /\ SphereInteriorNotInscribed(m.s, acc.I, Io, V, UU)}})
+            : V \in {ClipViolations(m.s, acc.I, acc.X, Io, Xo, UU) \cup Named(~st.neg, "X06.ClipKeepsFlag")},
+              R2 \in {acc.R \cap SurfRegion(m.s, UU)}})
+  ELSE One({[acc EXCEPT !.I = Io, !.X = Xo, !.R = R2, !.v = @ \cup V,
+                        !.broken = @ \/ ~(Io \subseteq R2 /\ R2 \subseteq Xo)]
+            : V \in {NegClipViolations(m.s, acc.I, acc.X, Io, Xo, UU) \cup Named(~st.neg, "X06.ClipKeepsFlag")},
+              R2 \in {acc.R \cap SurfOutRegion(m.s, UU)}})
+
+ClipStep(acc, i) ==
+  One({ClipStep2(acc, Rec.clips[i], Rec.steps[i], a, b) : a \in {PtSet(Rec.steps[i].i)}, b \in {PtSet(Rec.steps[i].x)}})
 
 TClip ==
   /\ pc = "run" /\ mode = "clips" /\ Rec.e = "Clip" /\ Rec.k = nxt.other
   /\ Len(Rec.steps) = Len(Rec.clips)
   /\ LET acc0 == [I |-> UU, X |-> UU, R |-> UU, taint |-> FALSE, v |-> {}, d |-> {}, f |-> {}, broken |-> FALSE]
-         acc == FoldLeft(ClipStep, acc0, [i \in DOMAIN Rec.clips |-> i]) IN
+     IN
+     \E acc \in {FoldLeft(ClipStep, acc0, [i \in DOMAIN Rec.clips |-> i])} :
      /\ viol' = Bump(viol, acc.v \cup Named(acc.taint \/ ~acc.broken, "X06.ClipRegionEnclosed"))
      /\ dev' = Bump(dev, acc.d)
      /\ drift' = Bump(drift, acc.f)
@@ -314,36 +313,35 @@ TUnit ==
   /\ pc = "run" /\ mode = "unit" /\ Rec.e = "Unit" /\ Rec.k = nxt.other
   /\ IF "error" \in DOMAIN Rec
      THEN /\ stat' = [stat EXCEPT !.units = @ + 1, !.unitskip = @ + 1]
-          /\ UNCHANGED <<viol, dev>>
-     ELSE LET t == Rec.vols[1]
-              inb == Pts(bnd, UU)
-              R == TreeRegion(t) \cap inb
-              b == Rec.built[1]
-              box == PtSet(b.bbox_pts)
-              located == {P[i] : i \in {j \in DOMAIN P : Rec.loc[j] = "v0"}}
-              miss == ~(R \subseteq box)
-              lost == R \ located
-              wrong == (located \cap inb) \ R
-              \* the consequence of the algebra's named deviations, exactly: the stored box is the
-              \* one the transcription of the source yields for this tree, the repaired algebra's
-              \* box covers the volume, and the points that cannot be located are those outside the box
-              asmodel == box = Pts(ExteriorBBox(TreeZone(t, "coded")), UU)
-              isdev == /\ miss /\ asmodel
-                       /\ R \subseteq Pts(ExteriorBBox(TreeZone(t, "fixed")), UU)
-                       /\ lost = R \ box
-              V == Named(b.found, "X06.UnitVolumeBuilt")
-                   \cup Named(~miss, "X06.UnitBBoxCoversVolume")
-                   \cup Named(lost = {}, "X06.UnitPointLocatable")
-                   \cup Named(wrong = {}, "X06.UnitPointNotMislocated") IN
+          /\ UNCHANGED <<viol, dev, drift>>
+     ELSE \E t \in {Rec.vols[1]}, inb \in {Pts(bnd, UU)} :
+          \E R \in {TreeRegion(t) \cap inb}, box \in {PtSet(Rec.built[1].bbox_pts)},
+             located \in {{P[i] : i \in {j \in DOMAIN P : Rec.loc[j] = "v0"}}} :
+          \* a null box is replaced by an infinite one when the unit is inserted (UnitInserter): only a
+          \* non-null box that misses part of the volume hides it from the BIH
+          \E miss \in {Rec.built[1].bbox_bool /\ ~(R \subseteq box)}, lost \in {R \ located},
+             wrong \in {(located \cap inb) \ R} :
+          \* the consequence of the algebra's named deviations, exactly: the stored box is the one the
+          \* transcription of the source yields for this tree, the repaired algebra's box covers the
+          \* volume, and the points that cannot be located are those outside the box
+          \E isdev \in {/\ miss
+                        /\ box = Pts(ExteriorBBox(TreeZone(t, "coded")), UU)
+                        /\ R \subseteq Pts(ExteriorBBox(TreeZone(t, "fixed")), UU)
+                        /\ lost = R \ box} :
+          \E V \in {Named(Rec.built[1].found, "X06.UnitVolumeBuilt")
+                     \cup Named(~miss, "X06.UnitBBoxCoversVolume")
+                     \cup Named(lost = {}, "X06.UnitPointLocatable")
+                     \cup Named(wrong = {}, "X06.UnitPointNotMislocated")} :
           /\ viol' = Bump(viol, IF isdev THEN V \ {"X06.UnitBBoxCoversVolume", "X06.UnitPointLocatable"} ELSE V)
           /\ dev' = Bump(dev, IF isdev THEN {"VolumeBBoxFromUnsoundZone"} ELSE {})
+          /\ drift' = Bump(drift, Named(Rec.built[1].bbox_bool \/ R = {}, "X06.UnitBBoxNullForNonEmptyVolume"))
           /\ stat' = [stat EXCEPT !.units = @ + 1, !.locs = @ + Len(P),
                                   !.unitmiss = @ + (IF miss THEN 1 ELSE 0),
                                   !.unitlost = @ + Cardinality(lost),
                                   !.devunit = @ + (IF isdev THEN 1 ELSE 0)]
   /\ nxt' = [nxt EXCEPT !.other = @ + 1]
   /\ cnt' = cnt + 1
-  /\ UNCHANGED <<pc, mode, P, UU, BX, ZN, ZV, LV, bnd, drift>>
+  /\ UNCHANGED <<pc, mode, P, UU, BX, ZN, ZV, LV, bnd>>
 
 TClose ==
   /\ pc = "run" /\ Rec.e = "Close"
